@@ -509,9 +509,12 @@ class Engine:
             veq = z3.Function('val_eq', st.heap['slots'].sort(), st.heap['llen'].sort(),
                               st.heap['lat'].sort(), T.Val, T.Val, T.B)
             if isinstance(a, VDyn) and isinstance(b, VDyn):
-                return z3.If(z3.And(intl(za), intl(zb)), T.as_int(za) == T.as_int(zb),
+                # identical values compare equal (python compares identity first for containers;
+                # NaN-like objects are outside the value model)
+                return z3.If(za == zb, True,
+                       z3.If(z3.And(intl(za), intl(zb)), T.as_int(za) == T.as_int(zb),
                              z3.If(z3.And(prim(za), prim(zb)), za == zb,
-                                   veq(st.heap['slots'], st.heap['llen'], st.heap['lat'], za, zb)))
+                                   veq(st.heap['slots'], st.heap['llen'], st.heap['lat'], za, zb))))
             # one side has a static primitive type
             other, typed = (za, b) if isinstance(a, VDyn) else (zb, a)
             if isinstance(typed, (VInt, VBool)):
